@@ -7,7 +7,7 @@ import solverslices
 from props.c04 import TRUSTED
 
 THEOREMS = ["C07_mirror_x_partial", "C07_mirror_y_partial", "C07_transpose_partial", "C07_length_scaling",
-            "C07_velocity_scaling", "C07_velocity_scaling_eig", "C07_sqrt_scale_in_C"]
+            "C07_velocity_scaling", "C07_velocity_scaling_eig", "C07_sqrt_scale_in_C", "C07_transpose", "C07_transposed_request_geometry"]
 ASSUMPTIONS = [
     "PARTIAL: mirror and transpose are proved per horizontal mode (the mode solution at the mirrored/swapped wavenumber); the array-level statement needs the retained frequency set to be symmetric, true up to its Nyquist row/column, and is carried by the correspondence and the oracle (Nyquist components filtered as the property allows)",
     "length scaling of the top condition uses sqrt(r/s^2) = sqrt(r)/s (principal root, real s > 0) as a hypothesis",
